@@ -189,6 +189,7 @@ def panic_sites(prog, chk, reach):
             why = "not a transform path: " + NOT_TRANSFORM_PATH[rp]
             by = "table"
         # --- guard rules
+        is_str_index = s.detail.startswith(("<str as", "<std::string::String as", "<&str as", "<&std::string::String as"))
         if why is None and s.kind in ("unwrap", "expect"):
             why = D.option_state_discharge(prog, body, s.bb, s.term)
             if why:
@@ -212,7 +213,7 @@ def panic_sites(prog, chk, reach):
             if w:
                 why = "D5 " + w
             else:
-                w = limit_bounded_counter(body, s.term)
+                w = limit_bounded_counter(body, s.term) or array_bounded_counter(body, s.term)
                 if w:
                     why = "D5 " + w
         if why is None and s.kind in ("assert:RemainderByZero", "assert:DivisionByZero", "assert:Overflow(Rem)", "assert:Overflow(Div)"):
@@ -244,9 +245,35 @@ def panic_sites(prog, chk, reach):
             w = D.len_fraction_guard(body, s.bb, s.term)
             if w:
                 why = "D2 " + w
-        is_str_index = s.detail.startswith(("<str as", "<std::string::String as", "<&str as", "<&std::string::String as"))
         if why is None and s.kind == "index" and not is_str_index:
             w = D.position_index_guard(body, s.bb, s.term)
+            if w:
+                why = "D4 " + w
+        if why is None and (s.kind.startswith("assert:Overflow(Sub)") or s.kind == "index"):
+            w = D.nonempty_guard(body, s.bb, s.term, s.kind)
+            if w:
+                why = "D2 " + w
+        if why is None and s.kind in ("unwrap", "expect") and s.term.get("args"):
+            pl_ = op_place(s.term["args"][0])
+            w = D.last_of_nonempty(body, s.bb, s.term, pl_[0]) if pl_ is not None and not pl_[1] else None
+            if w:
+                why = "D2 " + w
+        if why is None and s.kind == "explicit-panic":
+            # `match v.last_mut() { Some(x) => x, None => unreachable!() }`: the panicking arm is the None arm of a test
+            # of an Option that is Some
+            for (a_, x_) in D.dominating_edges(body, s.bb):
+                sd_ = R.switch_discr_place(body, a_)
+                ta_ = body.term(a_)
+                if sd_ is None or not sd_[1].startswith("std::option::Option<") or ta_["k"] != "switch":
+                    continue
+                none_t = [tgt for v, tgt in ta_["vals"] if v == 0] or ([ta_["otherwise"]] if any(v == 1 for v, _t in ta_["vals"]) else [])
+                if x_ in none_t and not sd_[0][1]:
+                    w = D.last_of_nonempty(body, s.bb, s.term, sd_[0][0])
+                    if w:
+                        why = "D2 the panicking arm is the None arm of " + w
+                        break
+        if why is None and s.kind == "index" and not is_str_index:
+            w = D.split_tail_guard(body, s.bb, s.term)
             if w:
                 why = "D4 " + w
         if why is None and s.kind == "vec-insert":
@@ -307,6 +334,37 @@ def panic_sites(prog, chk, reach):
     stale = [k for k, e in allow.items() if e["used"] < e["count"]]
     if stale:
         chk.note(f"{len(stale)} table line(s) no longer match any site (harmless): {stale[:5]}")
+
+
+def array_bounded_counter(body, t):
+    """`n + 1` on a counter that starts at a constant and is advanced only here, once per pass of a loop that walks a
+    fixed-size array (`for x in [a, b, c]` / a const table): n never exceeds the array length"""
+    import re as _re
+    from props.C01_loops import iterator_driven
+
+    a, b = t.get("a"), t.get("b")
+    if const_int(b) != 1:
+        return None
+    ch = body.chase(a)
+    if ch[0] != "place" or ch[1][1]:
+        return None
+    cl = ch[1]
+    defs = body.defs_of(cl[0])
+    incs = R.increments_of(body, cl)
+    inits = [d for d in defs if d[1] != R.TERM and d[2]["k"] == "use" and const_int(d[2]["op"]) is not None]
+    if len(incs) != 1 or len(inits) != 1 or len(defs) != 2:
+        return None
+    lp = R.loop_containing(body, incs[0][0])
+    if lp is None or inits[0][0] in lp[1]:
+        return None
+    if not iterator_driven(body, lp[0], lp[1]):
+        return None
+    for (bb, tt, c) in body.call_sites(lambda c: c.decl_path == "std::iter::Iterator::next"):
+        if bb in lp[1]:
+            m = _re.search(r"std::array::IntoIter<.*, (\d+)>$", (c.self_ty or "").strip())
+            if m and int(m.group(1)) < 100 and abs(const_int(inits[0][2]["op"])) < 100:
+                return f"counter advanced once per item of a fixed array of {m.group(1)} items (starts at {const_int(inits[0][2]['op'])})"
+    return None
 
 
 def limit_bounded_counter(body, t):
